@@ -289,6 +289,39 @@ class Shift(Term):
         return self.a + self.base.prox(v - sigma * self.c - self.a, sigma)
 
 
+class Envelope(Term):
+    """infimal convolution (g box l)(z) = min_u g(u) + c ||z - u||_w^2 of a base term g with
+    l = c ||.||_w^2, i.e. the Moreau envelope of g with parameter mu = 1/(2c): differentiable,
+    grad = 2c (z - prox_{mu g}(z)), gradient 2c-Lipschitz;
+    prox_{s env}(v) = v + s/(mu+s) (prox_{(mu+s) g}(v) - v)."""
+
+    def __init__(self, base, c):
+        Term.__init__(self, base.w)
+        self.base = base
+        self.c = float(c)
+        self.mu = 1.0 / (2 * self.c)
+        self.lip = 2 * self.c
+
+    def value(self, z):
+        z = np.asarray(z, float)
+        p = self.base.prox(z, self.mu)
+        return self.base.value(p) + self.c * float(np.sum(self.w * (z - p) ** 2))
+
+    def grad(self, z):
+        z = np.asarray(z, float)
+        return 2 * self.c * (z - self.base.prox(z, self.mu))
+
+    def sub_dist(self, z, s):
+        return self.nrm(np.asarray(s, float) - self.grad(z))
+
+    def pick(self, z, theta):
+        return self.grad(z)
+
+    def prox(self, v, sigma):
+        v = np.asarray(v, float)
+        return v + sigma / (self.mu + sigma) * (self.base.prox(v, self.mu + sigma) - v)
+
+
 class Blocks(Term):
     """separable sum over consecutive blocks of the flat vector"""
 
